@@ -570,8 +570,11 @@ class Purity:
                 for (target, pn, o, node, pos, src) in fa.calls_passing:
                     if pn in self.mut_params.get(target, {}):
                         for x in o:
+                            tt = self.mut_params[target][pn].tentative
+                            cur = self.mut_params[f].get(x[6:]) \
+                                if x.startswith("param:") else None
                             if x.startswith("param:") and \
-                                    x[6:] not in self.mut_params[f]:
+                                    (cur is None or (cur.tentative and not tt)):
                                 self.mut_params[f][x[6:]] = Mutation(
                                     f, node, frozenset([x]), f"via {target.qualname}"
                                     f"({pn})", src, stmt_index=pos,
